@@ -6,7 +6,7 @@ CONSTANTS PWs = {"p1", "p2", "p3"}
           InitParams = {"default", "low"}
           ConvTo = {"default", "low"}
           NewEnc = "wallet"
-          MaxHist = 100
+          MaxHist = 3
           EmitOn = TRUE
 VIEW View
 INVARIANT PropC43
